@@ -291,6 +291,28 @@ mut("c14-select-swapped", "C14", A,
                     },
                     Either::Left((Err(e), _)) => {""",
     "R14.4", "preamble polled before the stop listener: a handler can start in a step that begins after shutdown")
+mut("c14-benign-pinned-stop", "C14", A,
+    """                match select(&mut self.stop_fut, req_fut).await {""",
+    """                match select(std::pin::Pin::new(&mut self.stop_fut), req_fut).await {""",
+    None, "the stop listener handed to select through Pin::new: same polling order")
+mut("c14-buffered-request-skips-stop", "C14", A,
+    """            let sparser = {
+                let req_fut = Self::parse_request(rparser, &mut input, &mut output);""",
+    """            let sparser = if let Some(p) = Self::try_buffered(&mut rparser) { p } else {
+                let req_fut = Self::parse_request(rparser, &mut input, &mut output);""",
+    "R14.5", "a request already buffered is handed to the handler without looking at the stop listener",
+    extra=[("""    async fn parse_request<'a, R: AsyncRead + Unpin, W: AsyncWrite + Unpin>(""",
+            """    fn try_buffered<'a>(parser: &mut request::Parser<'a>) -> Option<stream::Parser<'a>> {
+        let mut probe = parser.clone();
+        let status = probe.parse(0);
+        if status.done && status.output.is_empty() {
+            probe.into_stream_parser().ok()
+        } else {
+            None
+        }
+    }
+
+    async fn parse_request<'a, R: AsyncRead + Unpin, W: AsyncWrite + Unpin>(""")])
 mut("c14-shutdown-by-ref", "C14", A,
     """    pub fn shutdown(self) -> util::WaitGroupFuture {
         self.stop.notify(usize::MAX);
@@ -766,6 +788,43 @@ mut("c06-align-down", "C06", LIB,
     """            Some(r) => r & !7,""",
     """            Some(r) => (r - 7) & !7,""",
     "R6.3/aligned_bufsize", "effective buffer smaller than configured")
+
+mut("c06-incomplete-includes-padding", "C06", RQ,
+    """            if data.len() < self.payload_rem.into() {
+                let consumed = self.inner.parse_stream(data, false);""",
+    """            if data.len() < usize::from(self.payload_rem) + usize::from(self.padding_rem) {
+                let avail = min(data.len(), usize::from(self.payload_rem));
+                let consumed = self.inner.parse_stream(&mut data[..avail], false);""",
+    "R6.4/params-drive/record-end-flag", "a pair fragment waits in the input buffer for the padding: StuckOnInput inside the documented bound (seed C06-b)")
+mut("c06-complete-at-le", "C06", RQ,
+    """            if data.len() < self.payload_rem.into() {
+                let consumed = self.inner.parse_stream(data, false);""",
+    """            if data.len() <= self.payload_rem.into() {
+                let consumed = self.inner.parse_stream(data, false);""",
+    "R6.4/params-drive/record-end-flag", "an exactly complete payload is never finished: the trailing fragment is never moved out")
+mut("c06-rec-end-small-fragment-only", "C06", RQ,
+    """        if rec_end && !data.is_empty() {
+            // Reserve sufficient space""",
+    """        if rec_end && !data.is_empty() && data.len() < 64 {
+            // Reserve sufficient space""",
+    "R6.5/parse_stream/record-end-buffering", "large fragments stay in the input buffer at a record end")
+mut("c06-try-fill-keeps-on-rec-end", "C06", RQ,
+    """            } else if $must_move {
+                $vec.extend(&*$inp);
+                return &mut [];
+            } else {""",
+    """            } else if $must_move && $inp.len() > 1 {
+                $vec.extend(&*$inp);
+                return &mut [];
+            } else {""",
+    "R6.5/parse_buffered/record-end-buffering", "a one-byte fragment of a length header is left in the input buffer at a record end")
+mut("c06-benign-payload-len-local", "C06", RQ,
+    """            if data.len() < self.payload_rem.into() {
+                let consumed = self.inner.parse_stream(data, false);""",
+    """            let want = usize::from(self.payload_rem);
+            if data.len() < want {
+                let consumed = self.inner.parse_stream(data, false);""",
+    None, "payload_rem widened into a local first")
 
 # ---- C03 -------------------------------------------------------------------------------------------------
 mut("c03-fatal-falls-through", "C03", RQ,
